@@ -57,7 +57,9 @@ Inductive oout :=
 | ObsValues (csv : list string) (rows : list (string * osnap))
 | ObsGet (found : bool) (rows : list (string * osnap))
 | ObsCrash
-| ObsDeadlock.
+| ObsDeadlock
+| ObsTransport.   (* the monitor refused / never registered the reporting connections, or Listen
+                     did not return after all of them were closed: no result could be read *)
 
 (* CaseN: the recorded VALUES are not known to the harness (CPU times sent by
    TimeMeasure.Record of the client API; the operations carry 0 in their
@@ -90,6 +92,28 @@ Definition dev_close (e : dev) (o : fval) (tol : Q) : bool :=
   | _, _ => false
   end.
 
+(* The deviation of a reported measure: the squared reported value d against
+   the exact variance v.  Rounding in the streaming recurrence perturbs the
+   variance by about  n * 2^-53 * (v + sqrt v * mag)  (mag = largest |value|),
+   which for the generated data (n <= 500) is below 1e-13 * (v + sqrt v * mag).
+   Accepted:  |d^2 - v| <= eps * (v + sqrt v * mag),  eps = 1e-9,  tested
+   without a square root as  D <= 0 \/ D^2 <= eps^2 * v * mag^2  for
+   D = |d^2 - v| - eps * v.  (A tolerance proportional to mag^2 alone would
+   accept ANY deviation for data with a large offset and a small spread; this
+   one rejects n instead of n-1 in the variance for every n <= 10^8.) *)
+Definition var_close (v d mag : Q) : bool :=
+  Qle_bool 0 d &&
+  (let D := Qabs (d * d - v) - eps * v in
+   Qle_bool D 0 || Qle_bool (D * D) (eps * eps * v * mag * mag)).
+
+Definition dev_close_v (e : dev) (o : fval) (mag : Q) : bool :=
+  match e, o with
+  | DNaN, FNaN => true
+  | DInf, FInf false => true
+  | DSq v, FNum d => var_close v d mag
+  | _, _ => false
+  end.
+
 Definition snap_diff (e : snap) (o : osnap) : list nat :=
   let mag := mag_of e in
   let nq := qofnat (Nat.max 1 (s_n e)) in
@@ -98,11 +122,40 @@ Definition snap_diff (e : snap) (o : osnap) : list nat :=
   clause 3 (num_close (s_max e) (decode (o_max o)) 0) ++
   clause 4 (num_close (s_sum e) (decode (o_sum o)) (eps * mag * nq)) ++
   clause 5 (num_close (s_avg e) (decode (o_avg o)) (eps * mag)) ++
-  clause 6 (dev_close (s_dev e) (decode (o_dev o)) (4 * eps * mag * mag)).
+  clause 6 (dev_close_v (s_dev e) (decode (o_dev o)) mag).
 
-(* count only (CaseN) *)
-Definition snap_diff_n (e : snap) (o : osnap) : list nat := clause 1 (Nat.eqb (s_n e) (o_n o)).
+(* A measure whose recorded VALUES the harness cannot know (CaseN, wall / CPU
+   times of TimeMeasure.Record): the count against the expected one, and
+   everything the reported numbers must satisfy among themselves:
+   min <= max, min <= mean <= max, sum = mean * count, deviation undefined for
+   one value and otherwise a number with 0 <= dev <= max - min. *)
+Definition snap_sane (o : osnap) : list nat :=
+  match decode (o_min o), decode (o_max o), decode (o_avg o), decode (o_sum o) with
+  | FNum mn, FNum mx, FNum av, FNum sm =>
+      let a := Qabs mn in let b := Qabs mx in
+      let mag := if Qle_bool a b then b else a in
+      let nq := qofnat (o_n o) in
+      clause 2 (Qle_bool mn mx) ++
+      clause 5 (Qle_bool (mn - eps * mag) av && Qle_bool av (mx + eps * mag)) ++
+      clause 4 (qabs_le sm (av * nq) (eps * mag * nq)) ++
+      clause 6 (match o_n o, decode (o_dev o) with
+                | 1%nat, FNaN => true
+                | S (S _), FNum d => Qle_bool 0 d && Qle_bool d ((mx - mn) * (1 + eps))
+                | _, _ => false
+                end)
+  | _, _, _, _ => [2%nat]
+  end.
+
+Definition snap_diff_n (e : snap) (o : osnap) : list nat :=
+  clause 1 (Nat.eqb (s_n e) (o_n o)) ++ snap_sane o.
 Definition dsel (cnt : bool) := if cnt then snap_diff_n else snap_diff.
+
+(* in a CaseN only the measures sent by TimeMeasure.Record have unknown values *)
+Definition ends_with (s suf : string) : bool :=
+  let ls := String.length s in let lf := String.length suf in
+  Nat.leb lf ls && String.eqb (substring (ls - lf) lf s) suf.
+Definition is_time_name (k : string) : bool :=
+  ends_with k "_wall" || ends_with k "_system" || ends_with k "_user".
 
 (* ---------- the CSV line --------------------------------------------------- *)
 
@@ -211,7 +264,8 @@ Fixpoint rows_agree (cnt : bool) (m : list (string * snap)) (o : list (string * 
   match m, o with
   | [], [] => true
   | (k, e) :: m', (k', s) :: o' =>
-      String.eqb k k' && match dsel cnt e s with [] => true | _ => false end && rows_agree cnt m' o'
+      String.eqb k k' && match dsel (cnt && is_time_name k) e s with [] => true | _ => false end &&
+      rows_agree cnt m' o'
   | _, _ => false
   end.
 
@@ -371,7 +425,7 @@ Fixpoint rows_check (cnt : bool) (kc : nat) (keys : list string) (r : recs) (o :
   | k :: keys', (k', s) :: o' =>
       if String.eqb k k' then
         match rec_find r k with
-        | Some l => dsel cnt (exact l) s ++ rows_check cnt kc keys' r o'
+        | Some l => dsel (cnt && is_time_name k) (exact l) s ++ rows_check cnt kc keys' r o'
         | None => [kc]
         end
       else [kc]
@@ -396,7 +450,7 @@ Definition is_bucket_obj (s : sstate) (i : nat) : bool :=
 
 Definition ocheck (cnt : bool) (st : list (string * string)) (s : sstate) (o : op) (ob : oout) : list nat :=
   match ob with
-  | ObsCrash | ObsDeadlock => [10]
+  | ObsCrash | ObsDeadlock | ObsTransport => [10]
   | _ =>
     match o, ob with
     | OHeader i, ObsHeader f =>
@@ -436,7 +490,7 @@ Fixpoint scheck (cnt : bool) (st : list (string * string)) (s : sstate) (ops : l
       match ocheck cnt st s' o ob with
       | [] => scheck cnt st s' ops' obs'
       | l => match ob with
-             | ObsCrash | ObsDeadlock => l            (* nothing happens afterwards *)
+             | ObsCrash | ObsDeadlock | ObsTransport => l   (* nothing happens afterwards *)
              | _ => l ++ scheck cnt st s' ops' obs'
              end
       end
